@@ -142,6 +142,25 @@ inductive Label
   | sweep                           -- the keep-alive timer fires: `_cleanup()`
 deriving Repr
 
+/-! ## the endpoint part of `ClientRequest.connection_key`
+
+`Key` above is abstract; this is what it stands for.  `connection_key` is built from `url.raw_host`
+(already lower-cased by yarl), `url.port` — the explicit port if the URL has one, else the default port of the
+scheme — and `url.scheme in ("https", "wss")`.  (The ssl object, proxy, proxy-header hash and server_hostname
+components are constant in every scenario of this check.) -/
+
+structure UrlParts where
+  host : List Nat               -- code points of `url.raw_host`
+  explicitPort : Option Nat     -- `url.explicit_port`
+  ssl : Bool                    -- `url.scheme in _SSL_SCHEMES`
+deriving DecidableEq, Repr
+
+def defaultPort (ssl : Bool) : Nat := if ssl then 443 else 80
+/-- `url.port` -/
+def effPort (u : UrlParts) : Nat := u.explicitPort.getD (defaultPort u.ssl)
+/-- the (host, port, is_ssl) triple of the connection key -/
+def endpointKey (u : UrlParts) : List Nat × Nat × Bool := (u.host, effPort u, u.ssl)
+
 /-! ## small helpers -/
 
 def sinsert [DecidableEq α] (a : α) (l : List α) : List α := if a ∈ l then l else a :: l
